@@ -54,6 +54,9 @@ def gen_script(rng, progs, npass, shutdown=None, faults=False, rpcs=True, group_
                 acts.append(('exit', rng.choice(names), rng.choice([0, 1])))
         if rng.random() < 0.04:
             acts.append(('foreign', 9000 + i, rng.choice([0, 1])))
+        if rng.random() < 0.06:
+            # the kernel recycles pids: an unrelated process that was given the pid of an earlier, reaped child
+            acts.append(('foreign', rng.randrange(100, 100 + 3 * len(names)), rng.choice([0, 1])))
         if rpcs and rng.random() < 0.2:
             rid[0] += 1
             nm = rng.choice(names)
@@ -129,12 +132,14 @@ def mon_c02(ctx, k, inp):
                     ctx.violation('second-child-forked', 'fork for %s while child(ren) %s not yet reaped' % (r['name'], sorted(unreaped[r['name']])), inp)
                 unreaped.setdefault(r['name'], set()).add(r['pid'])
                 name_of[r['pid']] = r['name']
+                waited.discard(r['pid'])
             elif r['kind'] == 'wait' and r.get('pid'):
                 pid = r['pid']
-                if pid in waited:
-                    ctx.violation('waited-twice', 'pid %d returned by wait twice' % pid, inp)
-                waited.add(pid)
-                nm = name_of.get(pid)
+                nm = name_of.pop(pid, None)
+                if nm is not None:
+                    if pid in waited:
+                        ctx.violation('waited-twice', 'pid %d returned by wait twice for one fork' % pid, inp)
+                    waited.add(pid)
                 nxt = recs[i + 1] if i + 1 < len(recs) else None
                 if nm is None:
                     if nxt and nxt['kind'] == 'event' and nxt['name'].startswith('PROCESS_STATE'):
@@ -421,9 +426,8 @@ def sup_lines(k):
                 outs.append('%s:kill:%d:%d' % (pn(r['name']) if r.get('name') else '?', r['pid'], r['sig']))
             elif kd == 'wait':
                 if r.get('pid'):
-                    c = k.children.get(r['pid'])
                     seg.append('%d:%d' % (r['pid'], decode_es(r['sts'])))
-                    if c is None:
+                    if r.get('foreign'):
                         outs.append('reaped-unknown:%d' % r['pid'])
                     if len(seg) == 100:
                         waits.append(seg); seg = []
